@@ -89,12 +89,14 @@ class ClassModel:
 
 
 class Loop:
-    def __init__(self, invariant, decreases=None, havoc=None, modifies=None, ghost=None):
+    def __init__(self, invariant, decreases=None, havoc=None, modifies=None, ghost=None, cases=None):
         self.invariant = invariant      # list of expression strings
         self.decreases = decreases      # expression string or None
         self.havoc = havoc or {}        # {local: type-string}
         self.modifies = modifies        # list of "self.x" or None (= function's)
         self.ghost = ghost or {}
+        self.cases = cases or []        # proof hint: conditions on the state at the loop head; the step is verified once per
+        #                                 truth assignment (c or not c is a tautology, so this only splits the obligation)
 
 
 class Contract:
